@@ -362,11 +362,13 @@ def main(argv: Optional[list[str]] = None) -> int:
         if key in reported and len(reported) >= 1:
             continue  # one replay per distinct oracle/signature
         reported.add(key)
-        if hasattr(mod, "minimise"):
+        if hasattr(mod, "shrink_candidates") and os.environ.get("VSIM_NO_MINIMISE") != "1":
             try:
+                from vsim.shrink import minimise
+
                 ctx = get_ctx()
                 ctx.base_seed = base_seed
-                v = mod.minimise(ctx, seed, tier, v)
+                v = minimise(mod, ctx, seed, tier, v, budget_s=60.0 if tier == "quick" else 300.0)
             except Exception:
                 print("minimise failed:\n" + traceback.format_exc(), file=sys.stderr)
             finally:
@@ -427,6 +429,8 @@ def replay_main(check_id: str, mod: Any, path: str, tier: str) -> int:
     vs = r.get("violations", [])
     same = [v for v in vs if v.get("oracle") == rp.get("oracle") and v.get("signature") == rp.get("signature")]
     if same:
+        if rp.get("expected_digest"):
+            print("digest %s (expected %s): %s" % (r.get("digest"), rp["expected_digest"], "exact replay" if r.get("digest") == rp["expected_digest"] else "DIFFERENT EVENT LOG"))
         print("VIOLATION property=%s replay=%s" % (check_id, path))
         print("  reproduced: oracle=%s signature=%s\n  %s" % (same[0].get("oracle"), same[0].get("signature"), str(same[0].get("message"))[:600]))
         return EXIT_VIOLATION
